@@ -214,11 +214,11 @@ func WriteToFile(bs []byte, filepath string) error {
 		return fmt.Errorf("error on open file: %w", err)
 	}
 
-	importedBs, err := imports.Process("", bs, nil)
+	importedBs, formatErr := imports.Process("", bs, nil)
 	// bs, err := format.Source(bb.Bytes())
-	if err != nil {
-		// return fmt.Errorf("error on format go source: %w", err)
-		log.Printf("Error on format go source (%s): %v", filepath, err)
+	if formatErr != nil {
+		// the raw text is still written, to be looked at; the run is reported as failed below
+		log.Printf("Error on format go source (%s): %v", filepath, formatErr)
 	} else {
 		bs = importedBs
 	}
@@ -231,6 +231,9 @@ func WriteToFile(bs []byte, filepath string) error {
 	err = f.Close()
 	if err != nil {
 		return fmt.Errorf("error on close file: %w", err)
+	}
+	if formatErr != nil {
+		return fmt.Errorf("generated file %q is not valid Go source: %w", filepath, formatErr)
 	}
 	return nil
 }
